@@ -53,7 +53,7 @@ Definition no_dnssec (m : msg) : bool := forallb (fun r => negb (is_dnssec r)) (
 (* a bare-header rejection: FORMERR / NOTIMP with nothing but the header *)
 Definition is_bare_reject (r : msg) : bool :=
   ((h_rcode (m_hdr r) =? rcode_formerr) || (h_rcode (m_hdr r) =? rcode_notimp))
-  && match m_an r, m_ns r, m_ex r with [], [], [] => true | _, _, _ => false end.
+  && match m_q r, m_an r, m_ns r, m_ex r with [], [], [], [] => true | _, _, _, _ => false end.
 (* the FORMERR / NOTIMP rejections the statement exempts from the shaping clauses *)
 Definition is_reject (r : msg) : bool := is_bare_reject r.
 
@@ -92,26 +92,28 @@ Definition no_ecs_ka (tr : transport) (c : cfg) (qo : option opt) (r : msg) : bo
   forallb (fun e => negb (e_code e =? code_ecs)
                     && (negb (e_code e =? code_keepalive) || own_option_ok tr c qo e)) (all_opts r).
 
-Definition reply_ok (strictness : bool) (tr : transport) (c : cfg) (q r : msg) (rlen : N) : bool :=
+(* [rx] relaxes clauses for the second copy of an input of a KNOWN finding (see CaseRelax):
+   bit 0: "only own options"; bit 1: "no ECS / foreign keepalive"; bit 2: the UDP size bound *)
+Definition reply_ok (rx : N) (tr : transport) (c : cfg) (q r : msg) (rlen : N) : bool :=
   let qo := last_opt (m_ex q) in
   let do := match qo with Some o => o_do o | None => false end in
   let qt_rrsig := match m_q q with x :: _ => q_type x =? type_rrsig | [] => false end in
   hdr_echo tr q r
-  && (negb (is_udp tr) || (rlen <=? udp_limit qo) || tc_minimal r)
+  && (N.testbit rx 2 || negb (is_udp tr) || (rlen <=? udp_limit qo) || tc_minimal r)
   && (is_reject r
       || (quest_echo q r
           && (negb (has_opt r) || match qo with Some _ => true | None => false end)
           && (do || qt_rrsig || no_dnssec r)
           && (negb (h_cd (m_hdr q) || (negb do && negb (h_ad (m_hdr q)))) || negb (h_ad (m_hdr r)))
-          && no_ecs_ka tr c qo r
-          && (negb strictness || options_own tr c qo r))).
+          && (N.testbit rx 1 || no_ecs_ka tr c qo r)
+          && (N.testbit rx 0 || options_own tr c qo r))).
 
 (* what a decoded query must get, if anything is sent at all *)
-Definition msg_reply_ok (strictness : bool) (tr : transport) (c : cfg) (q : msg) (obs : option msg) (rlen : N) : bool :=
+Definition msg_reply_ok (rx : N) (tr : transport) (c : cfg) (q : msg) (obs : option msg) (rlen : N) : bool :=
   match obs with
   | None => true        (* nothing downstream answered: no reply to judge *)
   | Some r =>
-      reply_ok strictness tr c q r rlen
+      reply_ok rx tr c q r rlen
       && (if negb (length (m_q q) =? 1)%nat then h_rcode (m_hdr r) =? rcode_formerr
           else if negb (h_opcode (m_hdr q) =? 0) then h_rcode (m_hdr r) =? rcode_notimp
           else match last_opt (m_ex q) with
@@ -139,20 +141,22 @@ Definition must_answer (q : msg) : bool :=
   negb (length (m_q q) =? 1)%nat || negb (h_opcode (m_hdr q) =? 0)
   || match last_opt (m_ex q) with Some o => negb (o_ver o =? 0) | None => false end.
 
-Definition spec_msg (strictness : bool) (tr : transport) (c : cfg) (q : msg) (obs : option msg) (rlen : N) : bool :=
-  msg_reply_ok strictness tr c q obs rlen && (negb (must_answer q) || negb (is_none obs)).
+Definition spec_msg (rx : N) (tr : transport) (c : cfg) (q : msg) (obs : option msg) (rlen : N) : bool :=
+  msg_reply_ok rx tr c q obs rlen && (negb (must_answer q) || negb (is_none obs)).
 
 (* datagram / stream listeners: the accept table, then the reply clauses *)
-Definition spec_raw (strictness : bool) (tr : transport) (c : cfg) (h : T_Header) (body : option msg)
+Definition spec_raw (rx : N) (tr : transport) (c : cfg) (h : T_Header) (body : option msg)
            (obs : option msg) (rlen : N) : bool :=
   if flags_qr h then is_none obs
   else if negb (flags_opcode h =? 0) && negb (flags_opcode h =? 4) then raw_reject_ok h rcode_notimp obs
-  else if negb (T_Header_QDCount h =? accept_qd) || (accept_an_max <? T_Header_ANCount h)
-          || (accept_ns_max <? T_Header_NSCount h) || (accept_ar_max <? T_Header_ARCount h)
+  (* the library server's accept function, which the listeners promise to mirror:
+     exactly one question, at most one answer / authority record, at most two additional *)
+  else if negb (T_Header_QDCount h =? 1) || (1 <? T_Header_ANCount h)
+          || (1 <? T_Header_NSCount h) || (2 <? T_Header_ARCount h)
        then raw_reject_ok h rcode_formerr obs
   else match body with
        | None => raw_reject_ok h rcode_formerr obs
-       | Some q => spec_msg strictness tr c q obs rlen
+       | Some q => spec_msg rx tr c q obs rlen
        end.
 
 Inductive case :=
@@ -162,11 +166,20 @@ Inductive case :=
      its wire length and its uncompressed library Len *)
 | CaseRaw (tr : transport) (c : cfg) (h : T_Header) (body : option msg) (strict : bool) (dn : option msg)
           (clen : N) (obs : option msg) (rlen oulen : N)
+  (* the same, with a last handler that took the byte path: WireReady said yes and WriteWire was
+     handed the response minus its OPT, packed to [blen] bytes, with WireInfo (hasd, ede);
+     [dn] is the whole message it re-serves through WriteMsg on ErrWireFallback *)
+| CaseWire (tr : transport) (c : cfg) (h : T_Header) (body : option msg) (strict : bool) (dn : option msg)
+           (hasd : bool) (ede : option eopt) (blen clen : N) (obs : option msg) (rlen oulen : N)
   (* one decoded query on the message entry (DoH, DoQ) *)
 | CaseMsg (tr : transport) (c : cfg) (q : msg) (dn : option msg) (clen : N) (obs : option msg) (rlen oulen : N)
-  (* the same input judged without the "only own options" clause (inputs of known finding F5 are
-     emitted twice: once in full — expected to fail — and once relaxed — must pass) *)
-| CaseRelax (c : case).
+  (* one decoded single-question query handed straight to a Chain [edns; last handler]
+     (sub-pipeline / embedder entry: no header accept, no QDCOUNT guard) *)
+| CaseChain (tr : transport) (c : cfg) (q : msg) (strict : bool) (dn : option msg) (clen : N) (obs : option msg) (rlen oulen : N)
+  (* the same input judged without the clauses a KNOWN finding breaks (such inputs are emitted
+     twice: once in full — expected to fail, tolerated by its fkey — and once relaxed — must pass,
+     so that a known finding never hides a different failure on the same input) *)
+| CaseRelax (rx : N) (c : case).
 
 Definition ulen_ok (obs : option msg) (oulen : N) : bool :=
   match obs with Some r => msg_ulen r =? oulen | None => true end.
@@ -175,20 +188,26 @@ Fixpoint check_case (x : case) : bool :=
   match x with
   | CaseRaw tr c h body strict dn clen obs rlen oulen =>
       omsg_eqb (serve_raw tr c h body strict dn clen) obs && ulen_ok obs oulen
+  | CaseWire tr c h body strict dn hasd ede blen clen obs rlen oulen =>
+      omsg_eqb (serve_raw_gen (wire_then_msg tr c hasd ede blen clen) tr c h body strict dn) obs && ulen_ok obs oulen
   | CaseMsg tr c q dn clen obs rlen oulen =>
       omsg_eqb (serve_msg tr c q false dn clen) obs && ulen_ok obs oulen
-  | CaseRelax y => check_case y
+  | CaseChain tr c q strict dn clen obs rlen oulen =>
+      omsg_eqb (option_map (transport_write tr) (edns_serve tr c q strict dn clen)) obs && ulen_ok obs oulen
+  | CaseRelax _ y => check_case y
   end.
 
-Definition spec_top (strictness : bool) (x : case) : bool :=
+Definition spec_top (rx : N) (x : case) : bool :=
   match x with
-  | CaseRaw tr c h body _ _ _ obs rlen _ => spec_raw strictness tr c h body obs rlen
-  | CaseMsg tr c q _ _ obs rlen _ => spec_msg strictness tr c q obs rlen
-  | CaseRelax _ => true
+  | CaseRaw tr c h body _ _ _ obs rlen _ => spec_raw rx tr c h body obs rlen
+  | CaseWire tr c h body _ _ _ _ _ _ obs rlen _ => spec_raw rx tr c h body obs rlen
+  | CaseMsg tr c q _ _ obs rlen _ => spec_msg rx tr c q obs rlen
+  | CaseChain tr c q _ _ _ obs rlen _ => negb (length (m_q q) =? 1)%nat || spec_msg rx tr c q obs rlen
+  | CaseRelax _ _ => true
   end.
 
 Definition spec_case (x : case) : bool :=
   match x with
-  | CaseRelax y => spec_top false y
-  | _ => spec_top true x
+  | CaseRelax rx y => spec_top rx y
+  | _ => spec_top 0 x
   end.
